@@ -1,7 +1,7 @@
 """C09 — shape-based simplifications hold for every runtime binding of symbolic dims."""
 import re
 
-MODULES = ["contracts.c03_folding", "contracts.c09_expand", "contracts.c05_basic"]
+MODULES = ["contracts.c03_folding", "contracts.c09_expand", "contracts.c05_basic", "contracts.c09_reshape"]
 HEAD = "import sys\nsys.path.insert(0, '/verif')\nfrom replay_lib.opt_native import main\n"
 
 
@@ -12,6 +12,8 @@ def INCLUDE(name):
 
 def replay(ob):
     n = ob["name"]
+    if "Flatten2Reshape" in n:
+        return HEAD + "main(['flatten_zero'])\n"
     if ".add." in n:
         return HEAD + "main(['abs_add'])\n"
     if "MaterializeReshapeShape" in n:
